@@ -331,12 +331,16 @@ impl ParsedFormula {
                 let branches: Vec<Rc<BDD<NamedSymbol>>> =
                     bs.iter().map(|b| self.eval_recursive(b)).collect();
 
+                // a constant beyond i64::MAX exceeds every possible count: saturate instead
+                // of wrapping around to a negative bound
+                let n = i64::try_from(*n).unwrap_or(i64::MAX);
+
                 match op {
-                    CountableOperator::AtMost => self.env.amn(&branches, *n as i64),
-                    CountableOperator::AtLeast => self.env.aln(&branches, *n as i64),
-                    CountableOperator::Exactly => self.env.exn(&branches, *n as i64),
-                    CountableOperator::LessThan => self.env.amn(&branches, *n as i64 - 1),
-                    CountableOperator::MoreThan => self.env.aln(&branches, *n as i64 + 1),
+                    CountableOperator::AtMost => self.env.amn(&branches, n),
+                    CountableOperator::AtLeast => self.env.aln(&branches, n),
+                    CountableOperator::Exactly => self.env.exn(&branches, n),
+                    CountableOperator::LessThan => self.env.amn(&branches, n - 1),
+                    CountableOperator::MoreThan => self.env.aln(&branches, n.saturating_add(1)),
                 }
             }
             SymbolicBDD::CountableVariable(op, l, r) => {
